@@ -328,7 +328,14 @@ def run_long(st: Stats, tier, version):
             remote["n"] += 1
             model.state["temp"] = 18.5 if model.state["temp"] != 18.5 else 26.0
             model.state["power"] = not model.state["power"]
-            req.conn.deliver_many(list(req.responses) + [req.dev.wrap(req.conn, model.report(0x05, 0x55))], LATENCY)
+            batch = list(req.responses) + [req.dev.wrap(req.conn, model.report(0x05, 0x55))]
+            if remote["n"] % 2 == 0:
+                # ... and is switched forth and back once more: three reports, the last one byte-identical to the first
+                model.state["power"] = not model.state["power"]
+                batch.append(req.dev.wrap(req.conn, model.report(0x05, 0x55)))
+                model.state["power"] = not model.state["power"]
+                batch.append(req.dev.wrap(req.conn, model.report(0x05, 0x55)))
+            req.conn.deliver_many(batch, LATENCY)
             return
         for p in req.responses:
             req.send(p)
